@@ -834,8 +834,8 @@ Section StateKVProofs.
           assert (Hk : In (key_svc_idx 255 s0) (map fst (serialize st))).
           { apply in_map_iff. exists (key_svc_idx 255 s0, v). auto. }
           apply upd_acc_ok; [assumption| |].
-          * intros a Ha. destruct (Hd s0 a Ha) as (_ & _ & Hp). repeat split; assumption.
-          * repeat split; try assumption. intros h w [].
+          * intros a Ha. destruct (Hd s0 a Ha) as (_ & _ & Hp). split; [assumption|split; [assumption|exact Hp]].
+          * split; [assumption|split; [assumption|]]. intros h w [].
         + destruct (bytes_eqb k (key_svc_hash (sid_type3 k) (pre_input (H v)))) eqn:Ep;
             inversion Hs; subst; clear Hs.
           * split; [assumption|]. cbn [ps_delta].
@@ -846,9 +846,10 @@ Section StateKVProofs.
             assert (Hnew : forall pres, pre_ok s pres -> pre_ok s ((H v, v) :: pres)).
             { intros pres Hp h w [[= <- <-]|Hw]; [|now apply Hp]. split; [reflexivity|]. exists k. auto. }
             apply upd_acc_ok; [assumption| |].
-            -- intros a0 Ha0. destruct (Hd s a0 Ha0) as (_ & Hlt & Hp). repeat split; try assumption.
+            -- intros a0 Ha0. destruct (Hd s a0 Ha0) as (_ & Hlt & Hp). split; [assumption|split; [assumption|]].
                cbn [add_pre p_pre]. now apply Hnew.
-            -- repeat split; [assumption|eapply wf_sid; eassumption|]. cbn [add_pre p_pre empty_pacc StateKV.empty_pacc].
+            -- split; [assumption|split; [eapply wf_sid; eassumption|]].
+               cbn [add_pre p_pre StateKV.empty_pacc].
                apply Hnew. intros h w [].
           * split; [|assumption]. intros k' v' [[= <- <-]|Hin']; [auto|now apply Hu].
     Qed.
